@@ -317,6 +317,17 @@ class C06(Property):
       a["num"].append([max(k for k, _ in a["num"]) + 1.5,
                        coeff(p_stream=(1, 1))])
       tree = {"op": "fraclin", "a": a}
+      if W.chance("near-integer-delays", 1, 3):
+        # two fractional delays one float rounding step apart, the whole
+        # filter then delayed by a further fraction so that one of the two
+        # lands exactly on an integer delay and the other right beside it:
+        # (g1 z^-0.8999999999999999 + g2 z^-0.9) z^-0.1 - still two terms
+        ka, kb, post = W.pick("near", [[0.9, 0.8999999999999999, 0.1],
+                                       [2.8, 2.8000000000000003, 0.2],
+                                       [0.8999999999999999, 0.9, 0.1]])
+        a["num"] = [[ka, coeff(p_stream=(1, 1))], [kb, coeff(p_stream=(3, 4))]]
+        a["num"].sort(key=lambda kc: kc[0])
+        tree["post"] = post
     elif shape in ("linearize", "copyonly"):
       tree = {"op": shape, "a": single()}
     elif shape in ("cascade", "parallel"):
@@ -693,7 +704,10 @@ class C06(Property):
       if op == "linearize":
         return rec(t["a"]).linearize()    # integer delays: the same filter
       if op == "fraclin":
-        return rec(t["a"]).linearize()
+        f = rec(t["a"])
+        if t.get("post"):
+          f = f * z ** -t["post"]
+        return f.linearize()
       if op == "cascade":
         return self.lf.CascadeFilter([rec(t["a"]), rec(t["b"])])
       if op == "parallel":
@@ -761,6 +775,16 @@ class C06(Property):
       return self.spec_polys(t["a"], n)
     if op == "fraclin":
       n1, d1 = self.spec_polys(t["a"], n)
+      if t.get("post"):
+        # the delays add in floating point, as written; a sum that is an
+        # integer is that integer delay
+        shifted = {}
+        for k, v in n1.items():
+          k2 = k + t["post"]
+          if isinstance(k2, float) and k2.is_integer():
+            k2 = int(k2)
+          shifted[k2] = shifted.get(k2, 0) + v
+        n1 = shifted
       num = {}
       for k, v in n1.items():
         left = int(k)
